@@ -689,6 +689,10 @@ func parseResponse(form string, codec string, accept []string, rv *RespView, new
 	}
 	decodeMsg := func(payload []byte, codecName string) {
 		m := newMsg()
+		if m == nil {
+			o.Msgs = append(o.Msgs, append([]byte("raw:"), payload...)) // no method known (unknown-endpoint handler): keep the bytes
+			return
+		}
 		if err := refUnmarshal(codecName, payload, m); err != nil {
 			o.problem("response message %d does not decode as %s: %v", len(o.Msgs), codecName, err)
 			o.Msgs = append(o.Msgs, nil)
